@@ -138,6 +138,9 @@ pub struct NetCfg {
     pub short_write_prob: f64,
     pub pending_write_prob: f64,
     pub split_read_prob: f64,
+    /// A read that could return data returns Pending once (the task is re-queued behind others).
+    #[serde(default)]
+    pub pending_read_prob: f64,
     pub rules: Vec<Rule>,
     /// (instant, delta in ms) jumps of the simulated wall clock.
     pub clock_jumps: Vec<(u64, i64)>,
@@ -160,6 +163,7 @@ impl Default for NetCfg {
             short_write_prob: 0.0,
             pending_write_prob: 0.0,
             split_read_prob: 0.0,
+            pending_read_prob: 0.0,
             rules: Vec::new(),
             clock_jumps: Vec::new(),
             breaks: Vec::new(),
@@ -943,7 +947,17 @@ impl AsyncRead for SimStream {
         }
         let seed = g.seed;
         let split = g.cfg.split_read_prob;
+        let pend = g.cfg.pending_read_prob;
         let key = g.conns[self.conn].key;
+        if pend > 0.0 && !g.conns[self.conn].pipes[dir].readable.is_empty() {
+            g.conns[self.conn].pipes[dir].read_calls += 1;
+            let call = g.conns[self.conn].pipes[dir].read_calls;
+            if unit(&[seed, 36, key, dir as u64, call]) < pend {
+                g.count("read-pending");
+                cx.waker().wake_by_ref();
+                return Poll::Pending;
+            }
+        }
         let p = &mut g.conns[self.conn].pipes[dir];
         if !p.readable.is_empty() {
             let mut n = p.readable.len().min(buf.remaining());
